@@ -67,7 +67,7 @@ MCNext ==
   \/ /\ env.nreq < MaxReq
      /\ \/ "pause" \in ReqKinds /\ ReqPause(FALSE) /\ Bump("nreq")
         \/ "defer" \in ReqKinds /\ ReqPause(TRUE) /\ Bump("nreq")
-        \/ \E op \in ReqKinds \cap {"abort", "stop", "halt"} : ReqTerminate(op) /\ Bump("nreq")
+        \/ \E op \in ReqKinds \cap {"abort", "stop", "halt"} : (ReqTerminate(op) \/ ReqTerminatePaused(op)) /\ Bump("nreq")
         \/ /\ "suspend" \in ReqKinds
            /\ \E f \in FutNames \ env.susp : ReqSuspend(f, SuspPre, SuspPost)
                                              /\ env' = [env EXCEPT !.nreq = @ + 1, !.susp = @ \cup {f}]
@@ -75,7 +75,7 @@ MCNext ==
   \/ \E sid \in DOMAIN S.stDone : \E ok \in BOOLEAN : (ok \/ "fail" \in FaultKinds) /\ StatusDone(sid, ok) /\ UNCHANGED env
   \/ /\ env.nupd < MaxUpdates /\ \E d \in Mons : MonitorUpdate(d) /\ Bump("nupd")
   \/ env.ncall < MaxCalls /\ Call(NoP, RecordIntr) /\ Bump("ncall")
-  \/ Return /\ UNCHANGED env
+  \/ (Return \/ LateReqRet) /\ UNCHANGED env
   \/ "resume" \in Decisions /\ CallResume /\ UNCHANGED env
   \/ \E op \in Decisions \cap {"abort", "stop", "halt"} : CallTerminate(op) /\ UNCHANGED env
 
